@@ -467,7 +467,25 @@ def judgeLogBlock (pfx : String) (n q1 q2 : Nat) (strict : Bool) (body : List St
     | none =>
       match futs.find? (fun f => f.2.1 > maxSlot) with
       | some f => [s!"viol {pfx}/future/resolved-for-undecided-slot fut {f.1}"]
-      | none => ["ok"]
+      | none =>
+        -- bounded progress (quiet fault-free stable-leader runs only): `cnt leader starts partitions sent delivered`
+        let q : Option Spec.Quiet := body.findSome? fun l =>
+          match toks l with
+          | ["cnt", p, st, pa, se, de] => some ⟨natD p, natD st, natD pa, natD se, natD de⟩
+          | _ => none
+        match q with
+        | none => ["ok"]
+        | some q =>
+          let finalCom := ((coms.filter (·.1 == q.leader)).getLast?.map (·.2)).getD []
+          match Spec.judgeProgress pfx q obs finalCom subs futs with
+          | none => ["ok"]
+          | some sig =>
+            let bad := (Spec.leaderProps obs q.leader).find? fun sc =>
+              !Spec.slotCommitted finalCom sc || !Spec.futureResolved subs futs sc
+            let det := match bad with
+              | some (sl, c) => s!" leader {q.leader} slot {sl} cmd {c} committed {finalCom.length}"
+              | none => ""
+            [s!"viol {sig}{det}"]
 
 def variantOf (v : String) : Px.Variant := if v == "current" then .current else .repaired
 
